@@ -78,6 +78,8 @@ pub struct BCase {
 pub struct Proc {
     child: Child,
     pub addrs: Vec<SocketAddr>,
+    /// the listen addresses it was started with
+    pub listen: Vec<String>,
 }
 
 impl Proc {
@@ -128,14 +130,30 @@ pub struct Launch {
     pub dir_arg: Option<(bool, std::ffi::OsString)>,
     pub connect: Vec<SocketAddr>,
     pub cwd: Option<PathBuf>,
+    /// the listen addresses as given to the server (host:port texts)
+    pub listen: Vec<String>,
 }
 
 fn plan_launch(bc: &BCase, dir: &Path, clients: &[Uuid]) -> Option<Launch> {
+    plan_launch_on(bc, dir, clients, None)
+}
+
+/// `reuse`: the listen addresses (host:port texts) of an earlier launch of the same case, to be
+/// used again as they are - an operator restarts a server with the configuration it had.
+fn plan_launch_on(bc: &BCase, dir: &Path, clients: &[Uuid], reuse: Option<&[String]>) -> Option<Launch> {
     let mut args = vec![];
     let mut env = vec![];
     let mut listen = vec![];
     let mut connect = vec![];
-    for h in &bc.hosts {
+    for (hi, h) in bc.hosts.iter().enumerate() {
+        if let Some(r) = reuse {
+            let l = r.get(hi)?.clone();
+            let (host, port) = l.rsplit_once(':')?;
+            let c = if host == "localhost" { format!("127.0.0.1:{port}") } else { l.clone() };
+            connect.push(c.to_socket_addrs().ok()?.next()?);
+            listen.push(l);
+            continue;
+        }
         let mut host = HOSTS[*h as usize % HOSTS.len()];
         // an address this sandbox cannot bind says nothing about the server: use 127.0.0.1 instead
         if free_port(host).is_none() {
@@ -172,6 +190,7 @@ fn plan_launch(bc: &BCase, dir: &Path, clients: &[Uuid]) -> Option<Launch> {
         let c = if host == "localhost" { format!("127.0.0.1:{port}") } else { format!("{host}:{port}") };
         connect.push(c.to_socket_addrs().ok()?.next()?);
     }
+    let listen_out = listen.clone();
     match bc.listen_style {
         ListStyle::Repeated => {
             for (i, l) in listen.iter().enumerate() {
@@ -281,7 +300,7 @@ fn plan_launch(bc: &BCase, dir: &Path, clients: &[Uuid]) -> Option<Launch> {
         }
         Src::Env => env.push(("SNAPSHOT_DAYS".into(), bc.snapshot_days.1.to_string())),
     }
-    Some(Launch { args, env, connect, cwd, dir_arg })
+    Some(Launch { args, env, connect, cwd, dir_arg, listen: listen_out })
 }
 
 pub fn spawn(bin: &Path, l: &Launch) -> Result<Proc, String> {
@@ -328,7 +347,7 @@ pub fn spawn(bin: &Path, l: &Launch) -> Result<Proc, String> {
             }
         }
         if ready.iter().all(|r| *r) {
-            return Ok(Proc { child, addrs: l.connect.clone() });
+            return Ok(Proc { child, addrs: l.connect.clone(), listen: l.listen.clone() });
         }
         if t0.elapsed() > Duration::from_secs(40) {
             let _ = child.kill();
@@ -341,6 +360,41 @@ pub fn spawn(bin: &Path, l: &Launch) -> Result<Proc, String> {
 
 fn v<T>(m: String) -> Result<T, Fail> {
     Err(Fail::Violation(m))
+}
+
+/// Does every one of the addresses refuse connections (so that no other server has taken it)?
+fn nobody_listens(listen: &[String]) -> bool {
+    listen.iter().all(|a| {
+        let a = if let Some(p) = a.strip_prefix("localhost:") { format!("127.0.0.1:{p}") } else { a.clone() };
+        match a.to_socket_addrs().ok().and_then(|mut i| i.next()) {
+            Some(sa) => matches!(std::net::TcpStream::connect_timeout(&sa, Duration::from_millis(500)), Err(e) if e.kind() == std::io::ErrorKind::ConnectionRefused),
+            None => false,
+        }
+    })
+}
+
+/// Start the server again with the listen addresses it had before it was killed (an operator
+/// restarts a service with the configuration it has).  If it does not come up although nobody
+/// else listens on any of those addresses, that is the server's doing; if somebody else has
+/// taken one meanwhile, other ports are used.
+fn start_again(bin: &Path, bc: &BCase, dir: &Path, clients: &[Uuid], listen: &[String], st: &mut Stats) -> Result<Proc, Fail> {
+    if listen.len() == bc.hosts.len() {
+        if let Some(l) = plan_launch_on(bc, dir, clients, Some(listen)) {
+            match spawn(bin, &l) {
+                Ok(p) => {
+                    st.label("c17:restarted-on-the-same-listen-addresses");
+                    return Ok(p);
+                }
+                Err(e) => {
+                    if nobody_listens(listen) && bc.restart_allow.is_none() {
+                        return v(format!("after being killed, the server does not come up again with the listen addresses it had ({listen:?}; nobody else listens there - connections are refused): {e}"));
+                    }
+                    st.label("c17:listen-addresses-taken-meanwhile");
+                }
+            }
+        }
+    }
+    start(bin, bc, dir, clients)
 }
 
 fn start(bin: &Path, bc: &BCase, dir: &Path, clients: &[Uuid]) -> Result<Proc, Fail> {
@@ -372,8 +426,16 @@ fn start(bin: &Path, bc: &BCase, dir: &Path, clients: &[Uuid]) -> Result<Proc, F
     let plainest = BCase { hosts: vec![0], listen_style: ListStyle::Repeated, data_dir_src: Src::Flag, allow_style: ListStyle::Repeated, dir_form: 0, ..bc.clone() };
     let probe_dir = dir.with_file_name("plain-probe");
     if let Some(l) = plan_launch(&plainest, &probe_dir, clients) {
-        if spawn(bin, &l).is_ok() {
-            return v(format!("the server does not come up with this configuration (data directory {:?}, named in form {}), but does with a plainly named fresh directory and a single 127.0.0.1 address: {last}", dir, bc.dir_form % 4));
+        match spawn(bin, &l) {
+            Ok(_) => return v(format!("the server does not come up with this configuration (data directory {:?}, named in form {}), but does with a plainly named fresh directory and a single 127.0.0.1 address: {last}", dir, bc.dir_form % 4)),
+            Err(e) => {
+                // not even that - on an address nobody listens on and a fresh directory it can write
+                let free = nobody_listens(&l.listen);
+                let writable = std::fs::create_dir_all(&probe_dir).is_ok() && std::fs::write(probe_dir.join("probe"), b"x").is_ok();
+                if free && writable && e.contains("exited at once") {
+                    return v(format!("the server does not come up at all, not even with one 127.0.0.1 address on which nobody listens ({:?}: connections are refused) and a fresh writable directory: {e}", l.listen));
+                }
+            }
         }
     }
     Err(Fail::Inconclusive(format!("cannot start the server: {last}")))
@@ -537,7 +599,12 @@ pub fn check(bc: &BCase, st: &mut Stats) -> CheckResult {
     // kill and restart on the same directory: the same history is served
     let model = h.model.clone();
     let ids = h.ids.clone();
-    drop(h);
+    // (with kill_restart the harness's connections - persistent ones in half of the cases - stay
+    // open until the server has been killed, as a client's would)
+    let mut still_connected = Some(h);
+    if !bc.kill_restart {
+        still_connected = None;
+    }
     let mut proc = proc;
     if bc.kill_restart {
         // SIGKILL; in half of the cases the restart happens while the killed process has not been
@@ -554,6 +621,8 @@ pub fn check(bc: &BCase, st: &mut Stats) -> CheckResult {
             }
             st.label("c17:restart-before-the-killed-process-is-reaped");
         }
+        drop(still_connected.take());
+        let listen_before = proc.listen.clone();
         let _old = proc;
         // the operator may restart with another allow-list: the restarted server enforces
         // exactly the new one, also against clients that synced under the old one
@@ -569,7 +638,8 @@ pub fn check(bc: &BCase, st: &mut Stats) -> CheckResult {
         };
         // the same binary came up with this very configuration moments ago: not coming up again
         // on the directory it was killed on is the server's doing, not the environment's
-        let proc2 = start(&bin, bc, &dpath, &clients).map_err(|f| match f {
+        let proc2 = start_again(&bin, bc, &dpath, &clients, &listen_before, st).map_err(|f| match f {
+            Fail::Violation(m) => Fail::Violation(format!("{what}: {m}")),
             Fail::Inconclusive(m) if bc.restart_allow.is_none() => Fail::Violation(format!("{what}: after being killed{}, the server does not come up again on the same data directory: {m}", if unreaped { " (and before the killed process was reaped)" } else { "" })),
             o => o,
         })?;
